@@ -205,6 +205,20 @@ func c16IsSynced(r *rand.Rand, emit func([]Ev)) {
 	}
 }
 
+// GenRows: byte streams kept by the coverage-guided fuzzer (FuzzC16); Sync is specified on every byte stream.
+func (c16) GenRows(rows []Ev, tier string, seed int64, emit func([]Ev)) {
+	for _, row := range rows {
+		in := GB(row["in"])
+		if len(in) > 1500 {
+			in = in[:1500]
+		}
+		if in == nil {
+			in = []byte{}
+		}
+		emit([]Ev{{"op": "sync", "stream": B(in), "reader": c16Readers[GI(row["opi"])%len(c16Readers)]}})
+	}
+}
+
 func (c16) Exec(h []Ev) []Ev {
 	for _, e := range h {
 		s := GB(e["stream"])
